@@ -23,7 +23,7 @@ def gen(rng):
         elif r < 0.67:
             pgn = rng.choice([0xEE00, 0xFECA, 0xEE01, 0x1EE00, 0x2EE00, 0xEEFF, rng.getrandbits(18), rng.getrandbits(24)])
             data = [pgn & 255, (pgn >> 8) & 255, pgn >> 16][:rng.choice([3, 3, 3, 3, 2, 0])]
-            lines.append(f"ca.request {i} {rng.randrange(254)} {rng.choice([255] + ADDRS)} {pyexec.fmt_list(data)}")
+            lines.append(f"ca.request {i} {rng.choice([rng.randrange(254), rng.randrange(254), 254, 255])} {rng.choice([255] + ADDRS)} {pyexec.fmt_list(data)}")
         elif r < 0.76:
             lines.append(f"ca.sendmsg {i} {rng.randrange(8)} {rng.getrandbits(18)} [1,2,3]")
         elif r < 0.84:
